@@ -62,8 +62,9 @@ def gen_param(r: random.Random) -> Any:
     if c < 0.92:
         langs = r.sample(LANGS, r.randint(1, 3))
         return {"ls": [[l, r.choice(STRS)] for l in langs]}
-    rel = r.choice([0, 1, 5, 23, 100, r.randint(0, 60), -3])
-    return {"pm": [r.choice(PM_NAMES), r.choice([0, 2]), r.choice([0, 2]), rel, r.choice([0, 7, r.randint(0, 60), -12])]}
+    # (-1 is an ordinary tile, and the value the SsbScript listener uses internally as "not set yet")
+    rel = r.choice([0, 1, 5, 23, 100, r.randint(0, 60), -3, -1, -1])
+    return {"pm": [r.choice(PM_NAMES), r.choice([0, 2]), r.choice([0, 2]), rel, r.choice([0, 7, r.randint(0, 60), -12, -1])]}
 
 
 def gen_info(r: random.Random, kind: str) -> tuple[dict, Any]:
